@@ -693,7 +693,21 @@ def section_solvers():
         eigs = (EA, EB)
         for (i, j) in ((0, 1), (1, 0), (0, 0), (1, 1)):
             Y = rng.normal(size=(len(eigs[i]), len(eigs[j]))) + 1j * rng.normal(size=(len(eigs[i]), len(eigs[j])))
-            for conv in (np.array, sparse.csr_array):
+            def coo_shuffled(a):
+                c = sparse.coo_array(a)
+                perm_ = np.random.default_rng(1).permutation(c.nnz)
+                return sparse.coo_array((c.data[perm_], (c.row[perm_], c.col[perm_])), shape=c.shape)
+
+            def csr_unsorted(a):
+                c = sparse.csr_array(a)
+                for r_ in range(c.shape[0]):
+                    lo_, hi_ = c.indptr[r_], c.indptr[r_ + 1]
+                    c.indices[lo_:hi_] = c.indices[lo_:hi_][::-1].copy()
+                    c.data[lo_:hi_] = c.data[lo_:hi_][::-1].copy()
+                c.has_sorted_indices = False
+                return c
+            # every storage order of a sparse right-hand side (the algorithm's own products arrive as csr or csc): row-major, column-major, shuffled triplets, unsorted indices
+            for conv in (np.array, sparse.csr_array, sparse.csc_array, sparse.coo_array, coo_shuffled, csr_unsorted, sparse.lil_array, sparse.dia_array, sparse.csc_matrix):
                 cases += 1
                 ss = solve_sylvester_diagonal(eigs, atol=1e-12)
                 V = dense(ss(conv(Y), (i, j)), Y.shape)
@@ -984,6 +998,33 @@ def section_illposed():
                     v = res[1][1, 0, 1]
                     return v
                 expect(f"shared energy, lower-triangular coupling only, first={first}", (ValueError, RuntimeError), thunk2)
+    # shared energy where the first-order coupling vanishes exactly AT the degenerate pair (a selection rule) and the pair is coupled only through an intermediate level at
+    # the next order: the block pair is ill posed from its first use on - dense, sparse, integer dtype, exact-rational values, both modes, pair in the third block, two parameters
+    Esel = np.diag([0.0, 1.0, 1.0, 3.0])
+    Hsel = np.zeros((4, 4))
+    for a_, b_, v_ in ((0, 1, 1.0), (0, 2, 2.0), (1, 3, -1.0), (2, 3, 0.5)):
+        Hsel[a_, b_] = Hsel[b_, a_] = v_
+    sel_inputs = {"dense": [Esel, Hsel], "sparse": [sparse.csr_array(Esel), sparse.csr_array(Hsel)], "integer H_0": [np.diag([0, 1, 1, 3]), Hsel],
+                  "exact rational": [sympy.Matrix(np.diag([0, 1, 1, 3]).tolist()), sympy.Matrix(4, 4, lambda i, j: sympy.nsimplify(Hsel[i, j]))]}
+    for lab_, ham_ in sel_inputs.items():
+        for hermitian_ in (True, False):
+            for out_, first_ in ((0, (0, 0, 2)), (1, (0, 1, 1)), (1, (0, 1, 2)), (0, (1, 1, 3))):
+                expect(f"shared energy, degenerate pair coupled only at second order ({lab_}, hermitian={hermitian_}, output {out_}, first request {first_})", (ValueError,),
+                       lambda ham_=ham_, hermitian_=hermitian_, out_=out_, first_=first_: (lambda r: [r[out_][first_], r[0][0, 0, 3], r[1][0, 1, 2]])(
+                           block_diagonalize(list(ham_), subspace_indices=[0, 0, 1, 1], hermitian=hermitian_)))
+    E3b = np.diag([5.0, 0.0, 1.0, 1.0, 3.0])
+    H3b = np.zeros((5, 5))
+    H3b[1:, 1:] = Hsel
+    H3b[0, 1:] = H3b[1:, 0] = [0.3, 0.2, 0.0, 0.1]
+    expect("shared energy with a selection rule, pair between the second and the third block", (ValueError,),
+           lambda: (lambda r: [r[0][1, 1, 2], r[1][1, 2, 2]])(block_diagonalize([E3b, H3b], subspace_indices=[0, 1, 1, 2, 2])))
+    Hx, Hy = np.zeros((4, 4)), np.zeros((4, 4))
+    Hx[0, 1] = Hx[1, 0] = 1.0
+    Hx[1, 3] = Hx[3, 1] = -1.0
+    Hy[0, 2] = Hy[2, 0] = 2.0
+    Hy[2, 3] = Hy[3, 2] = 0.5
+    expect("shared energy with a selection rule, two parameters (pair first coupled at order (1, 1))", (ValueError,),
+           lambda: (lambda r: [r[1][0, 1, 1, 0], r[1][0, 1, 0, 1], r[0][0, 0, 1, 1], r[1][0, 1, 1, 1]])(block_diagonalize([Esel, Hx, Hy], subspace_indices=[0, 0, 1, 1])))
     # elements selected for elimination at equal energies
     Ed = np.diag([0.0, 0.0, 2.0]).astype(complex)
     m = np.ones((3, 3), dtype=bool)
